@@ -182,6 +182,14 @@ def m_truncate_file(ex, st, node, path):
     return VNone()
 
 
+def m_os_truncate(ex, st, node, path, length):
+    """os.truncate(path, length): the effects of `with open(path, 'r+b') as f: f.truncate(length)` (the file must exist; earlier bytes are kept)"""
+    f = b_open(ex, st, node, path, const('r+b'))
+    file_method(ex, st, node, f, 'truncate', [length])
+    close(ex, st, node, f)
+    return VNone()
+
+
 def m_glob(ex, st, node, pattern):
     """glob.glob(prefix + '*' + suffix): the existing paths that start with prefix and end with suffix (prefix free of glob
     metacharacters and of directory-crossing matches: assumed).  Only emptiness of the result is modelled."""
@@ -206,6 +214,7 @@ lib.MODFUNCS['gzip.GzipFile'] = m_gzipfile
 lib.MODFUNCS['os.path.exists'] = m_exists
 lib.MODFUNCS['os.path.getsize'] = m_getsize
 lib.MODFUNCS['os.remove'] = m_remove
+lib.MODFUNCS['os.truncate'] = m_os_truncate
 lib.MODFUNCS['glob.glob'] = m_glob
 lib.MODFUNCS['wpull.util.truncate_file'] = m_truncate_file
 lib.MODULES.update({'glob', 'shutil', 'wpull.version', 'logging'})
